@@ -471,6 +471,14 @@ static SSL_CTX *load_ssl_ctx(const char *cert_data, const char *key_data,
 
     SSL_CTX_set_session_cache_mode(ssl_ctx, SSL_SESS_CACHE_OFF);
 
+#ifdef HAS_TLS_1_3
+    /* SSL_OP_NO_TICKET only turns TLS 1.3 tickets into stateful
+       ones. A ticket a client never reads makes its close() reset
+       the connection, destroying data still on its way to the
+       server. */
+    SSL_CTX_set_num_tickets(ssl_ctx, 0);
+#endif
+
     if (install_cert(ssl_ctx, cert_data, log_ref) < 0)
 	goto err_free;
 
